@@ -3,6 +3,7 @@ package main
 import (
 	"fmt"
 	"go/ast"
+	"go/types"
 	"os"
 	"sort"
 	"strings"
@@ -74,6 +75,17 @@ func readOnlyAPI(c *Ctx) []*ssa.Function {
 		// as flatString) stay in, so nothing reachable only by dynamic dispatch is lost.
 		if !ast.IsExported(fn.Name()) && hasStaticCaller(c, fn) {
 			continue
+		}
+		// a method of an unexported helper type (the state struct an encoder's callback was moved
+		// onto) is not an operation on the caller's values: its receiver is created inside the library
+		if rv := fn.Signature.Recv(); rv != nil {
+			t := rv.Type()
+			if pt, isP := t.(*types.Pointer); isP {
+				t = pt.Elem()
+			}
+			if nt, isNamed := t.(*types.Named); isNamed && !nt.Obj().Exported() {
+				continue
+			}
 		}
 		out = append(out, fn)
 	}
